@@ -243,6 +243,10 @@ func (ef *Filter) Process(ctx context.Context, e *eventlogger.Event) (*eventlogg
 			if err := ef.filterField(ctx, payloadValue, filterOverrides, tm, opts...); err != nil {
 				return nil, fmt.Errorf("%s: %w", op, err)
 			}
+		} else if err := tm.trackMap(&tMap{value: payloadValue}); err != nil {
+			// make sure the untagged entries of the map are filtered even when
+			// no tag matched (a no-op if a tag already had the map tracked)
+			return nil, fmt.Errorf("%s: %w", op, err)
 		}
 	case pKind == reflect.Slice:
 		switch {
@@ -450,6 +454,10 @@ func (ef *Filter) filterField(ctx context.Context, v reflect.Value, filterOverri
 				if err := ef.filterField(ctx, field, filterOverrides, tm, opt...); err != nil {
 					return fmt.Errorf("%s: %w", op, err)
 				}
+			} else if err := tm.trackMap(&tMap{value: field}); err != nil {
+				// make sure the untagged entries of the map are filtered even
+				// when no tag matched (a no-op if the map is already tracked)
+				return fmt.Errorf("%s: %w", op, err)
 			}
 
 		// if the field is a struct
